@@ -125,17 +125,17 @@ def main(argv=None):
     ap.add_argument('--no-evidence', action='store_true')
     ap.add_argument('--budget', type=int, default=None,
                     help='wall seconds after which no further obligation is STARTED (0 = none); default: none for quick, '
-                         'VERIF_BUDGET or 900 for thorough.  Obligations not started are reported as not attempted (inconclusive)')
+                         'VERIF_BUDGET or 600 for thorough.  Obligations not started are reported as not attempted (inconclusive)')
     ap.add_argument('--cap', type=int, default=None,
-                    help='upper limit on the per-obligation time budget (0 = none); default: none for quick, VERIF_JOB_CAP or 1200 for thorough')
+                    help='upper limit on the per-obligation time budget (0 = none); default: none for quick, VERIF_JOB_CAP or 900 for thorough')
     ap.add_argument('-v', action='store_true')
     a = ap.parse_args(argv)
     pid = a.prop.upper()
     seed = int(os.environ.get('VERIF_SEED', '0') or 0)
     if a.budget is None:
-        a.budget = 0 if a.tier == 'quick' else int(os.environ.get('VERIF_BUDGET', '900') or 0)
+        a.budget = 0 if a.tier == 'quick' else int(os.environ.get('VERIF_BUDGET', '600') or 0)
     if a.cap is None:
-        a.cap = 0 if a.tier == 'quick' else int(os.environ.get('VERIF_JOB_CAP', '1200') or 0)
+        a.cap = 0 if a.tier == 'quick' else int(os.environ.get('VERIF_JOB_CAP', '900') or 0)
     if a.replay:
         return subprocess.call([a.replay])
     t_start = time.time()
